@@ -99,7 +99,12 @@ pub fn type_cast<Data: GarnishData>(this: &mut Data) -> Result<Option<Data::Size
             while count <= end {
                 let addr = this.add_number(count.clone())?;
                 list_index = this.add_to_list(list_index.clone(), addr)?;
-                count = count.increment().or_num_err()?;
+                let next = count.clone().increment().or_num_err()?;
+                if next <= count {
+                    // incrementing no longer advances (a float too large to hold the step)
+                    break;
+                }
+                count = next;
             }
 
             this.end_list(list_index).and_then(|r| this.push_register(r))?
